@@ -78,6 +78,15 @@ def op_key(section, pred, fn):
   return f
 
 
+def late_wrong_call(formula):
+  def f(items, info, rng):
+    pairs = bm.sec(items, "Pair")[1]
+    pairs[-1][1] = "wr 1.5"                       # the last pair entry: everything before it has been evaluated correctly
+    bm.sec(items, "Potential-Form")[1].append(["wr(r, k)", formula])
+    return items
+  return f
+
+
 def drop_section(name):
   def f(items, info, rng):
     s = bm.sec(items, name)
@@ -189,6 +198,7 @@ OPS = [
   ("spline_four_parts", "*", op_value("Pair", IS_SPLINE_EXP, lambda v, rng: v[:-1] + " >=3.0 as.constant 0.0)")),
   ("spline_two_arguments", "*", op_value("Pair", IS_SPLINE_EXP, lambda v, rng: v[:-1] + ", as.constant 1.0)")),
   ("spline_middle_is_modifier", "*", op_value("Pair", IS_SPLINE_EXP, lambda v, rng: v.replace("exp_spline", "sum(as.constant 1.0, as.constant 2.0)"))),
+  ("spline_middle_written_as_a_call", "*", op_value("Pair", IS_SPLINE_EXP, lambda v, rng: v.replace("exp_spline", rng.choice(["exp_spline(as.constant 1.0)", "exp_spline()", "buck4_spline(as.constant 1.1)"])))),
   ("spline_unknown_type", "*", op_value("Pair", IS_SPLINE_EXP, lambda v, rng: v.replace("exp_spline", rng.choice(["cubic_spline", "as.exp_spline", "spline5"])))),
   ("exp_spline_given_parameters", "*", op_value("Pair", IS_SPLINE_EXP, lambda v, rng: v.replace("exp_spline", "exp_spline 1.1"))),
   ("buck4_spline_missing_r_min", "*", op_value("Pair", IS_SPLINE_B4, lambda v, rng: v.replace("buck4_spline 1.5", "buck4_spline"))),
@@ -232,6 +242,11 @@ OPS = [
   ("table_decreasing_x", "*", tf_set([("x", "5 4 3 2 1 0"), ("y", "1 2 3 4 5 6")])),
   ("table_unknown_interpolation", "*", tf_set([("interpolation", "linear")])),
   ("table_no_data", "*", tf_set([], drop=("x", "y"))),
+  ("table_empty_x_and_y", "*", tf_set([("x", ""), ("y", "")])),
+  ("table_empty_xy", "*", tf_set([("xy", "")], drop=("x", "y"))),
+  ("table_nan_in_data", "*", tf_set([("y", "1 2 nan 4 5 6")])),
+  ("table_inf_in_data", "*", tf_set([("y", "1 2 3 -inf 5 6")])),
+  ("table_nan_in_x", "*", tf_set([("x", "0 1 2 nan 4 5"), ("y", "1 2 3 4 5 6")])),
   # ---- [Potential-Form]
   ("form_signature_without_parentheses", "*", op_key("Potential-Form", lambda k, v: k.startswith("other"), lambda k, rng: "other r k")),
   ("form_signature_unterminated", "*", op_key("Potential-Form", lambda k, v: k.startswith("other"), lambda k, rng: "other(r, k")),
@@ -244,6 +259,12 @@ OPS = [
   ("formula_undefined_variable", "*", op_value("Potential-Form", lambda k, v: k.startswith("cf"), lambda v, rng: v.replace("rho", "sigma", 1))),
   ("formula_undefined_function", "*", op_value("Potential-Form", lambda k, v: k.startswith("cf"), lambda v, rng: v.replace("other(", "another("))),
   ("formula_wrong_arity_in_nested_call", "*", op_value("Potential-Form", lambda k, v: k.startswith("cf"), lambda v, rng: re.sub(r"other\(r, \S+\)", "other(r)", v))),
+  # a built-in / pymath function that has ALREADY been called correctly earlier in the same tabulation (as.morse by the
+  # A-A and B-C entries, pymath.tanh by other()) is called with the wrong number of arguments by the last pair entry
+  ("formula_wrong_arity_builtin_after_correct_use_too_few", "*", late_wrong_call("as.morse(r, k)")),
+  ("formula_wrong_arity_builtin_after_correct_use_too_many", "*", late_wrong_call("as.morse(r, k, 2.0, 0.5, 9.9)")),
+  ("formula_wrong_arity_pymath_after_correct_use", "*", late_wrong_call("k + pymath.tanh(0.1*r, k)")),
+  ("formula_wrong_arity_custom_form_after_correct_use", "*", late_wrong_call("other(r, k, 2.0)")),
   ("formula_unparsable", "*", op_value("Potential-Form", lambda k, v: k.startswith("other"), lambda v, rng: rng.choice(["k/(r+1", "k */ r", "k +* r", "k/(r+1))"]))),
   ("formula_unknown_pymath_function", "*", op_value("Potential-Form", lambda k, v: k.startswith("other"), lambda v, rng: v.replace("pymath.tanh", "pymath.nosuch"))),
   ("formula_empty", "*", op_value("Potential-Form", lambda k, v: k.startswith("other"), lambda v, rng: "")),
